@@ -95,16 +95,27 @@ func rewriteFile(w *World, file *ast.File, kind string) ([]byte, int) {
 		if pkg != nil {
 			rename := func(id *ast.Ident, obj types.Object) {
 				v, ok := obj.(*types.Var)
-				if !ok || v.IsField() || id.Name == "_" || v.Parent() == nil || v.Parent() == pkg.Types.Scope() || v.Parent() == types.Universe {
-					return
+				if !ok || v.IsField() || id.Name == "_" || v.Parent() == nil || v.Parent() == types.Universe || v.Parent().Parent() == types.Universe {
+					return // fields, blanks and package-level variables (of this or any other package) keep their names
 				}
 				if !strings.HasSuffix(id.Name, "Zq") {
 					id.Name += "Zq"
 					n++
 				}
 			}
+			skip := map[string]bool{}
 			ast.Inspect(file, func(m ast.Node) bool {
-				if id, ok := m.(*ast.Ident); ok {
+				if ts, ok := m.(*ast.TypeSwitchStmt); ok {
+					if as, ok := ts.Assign.(*ast.AssignStmt); ok && len(as.Lhs) == 1 {
+						if id, ok := as.Lhs[0].(*ast.Ident); ok {
+							skip[id.Name] = true
+						}
+					}
+				}
+				return true
+			})
+			ast.Inspect(file, func(m ast.Node) bool {
+				if id, ok := m.(*ast.Ident); ok && !skip[id.Name] {
 					if obj := pkg.TypesInfo.Defs[id]; obj != nil {
 						rename(id, obj)
 					} else if obj := pkg.TypesInfo.Uses[id]; obj != nil {
